@@ -16,6 +16,7 @@ const pep440BoundedTmpl = `package pypi
 import (
 	"fmt"
 	"os"
+	"strings"
 	"testing"
 )
 
@@ -200,6 +201,34 @@ func TestVerifReplay(t *testing.T) {
 			nx = append(nx, pool[i])
 		}
 		pool = nx
+	}
+	// alternate spellings PEP 440 normalises (alpha/beta/c, rev/r, a dot before the marker): same key, different text
+	{
+		alt := map[string][]string{"a": {"alpha", ".a"}, "b": {"beta", ".b"}, "rc": {"c", ".rc", ".c"}}
+		var extra []verifPEP
+		for i, p := range pool {
+			if p.preKind == 0 || len(p.local) > 0 || i%3 != 0 {
+				continue
+			}
+			mark := fmt.Sprintf("%s%d", pres[p.preKind], p.preNum)
+			for _, a := range alt[pres[p.preKind]] {
+				q := p
+				q.text = strings.Replace(p.text, mark, fmt.Sprintf("%s%d", a, p.preNum), 1)
+				if p.post >= 0 && len(extra)%2 == 0 {
+					q.text = strings.Replace(q.text, ".post", ".rev", 1)
+				}
+				extra = append(extra, q)
+			}
+		}
+		if len(extra) > 160 {
+			step := len(extra)/160 + 1
+			var nx []verifPEP
+			for i := 0; i < len(extra); i += step {
+				nx = append(nx, extra[i])
+			}
+			extra = nx
+		}
+		pool = append(pool, extra...)
 	}
 	type pv struct {
 		p verifPEP
